@@ -239,7 +239,7 @@ pub struct Case {
 }
 
 pub const N_INSTANTS: u8 = 14;
-pub const N_DATETIMES: u8 = 5;
+pub const N_DATETIMES: u8 = 6;
 pub const N_QUERIES: u8 = 13;
 pub const N_ZONED_MAKE: u8 = 30;
 pub const N_ZONED_MUTATE: u8 = 9;
